@@ -23,6 +23,7 @@ def expected(r):
 
 def run(ck, tier):
     ck.rule("R-C17-table", "abstract interpretation of NumberSuffix::correct_suffix_for over the 100 residue classes mod 100 (exact for `% k` with k | 100, comparisons and range matches on residues): the extracted table equals the English rule (11,12,13 -> th; else last digit 1/2/3 -> st/nd/rd; else th); negative, fractional and > u64::MAX inputs return None before the cast")
+    ck.rule("R-C17-boundary", "digits directly followed by suffix letters reach the number lexer: a lexer-table entry that is tried before lex_number and matches a fixed-length shape ending in a letter must look at the character after its match (sibling entries of that kind do); otherwise `<digits>s` + letters is split inside the word and the ordinal is never seen as number + suffix")
     ck.rule("R-C17-flow", "CorrectNumberSuffix::lint emits a lint iff the token's suffix differs from correct_suffix_for(value); its span is Span::new_with_len(tok.span.end, 2).pulled_by(2) = [end-2, end); the suggestion is ReplaceWith(correct.to_chars()) of the same value; from_chars/to_chars agree on the four suffixes in every letter case; condense_number_suffixes merges exactly two tokens")
     ck.not_decided += ["exactness of the f64 path for n < 2^53 (IEEE arithmetic and str::parse, assumed)", "that the lexer produces the right number token"]
     ck.assumptions += ["`as u64` of a non-negative integral f64 below 2^53 is exact"]
@@ -32,6 +33,8 @@ def run(ck, tier):
     _flow(ck, p, byk)
     _tables(ck, p, byk)
 
+
+    _boundary(ck, p, byk)
 
 def _table(ck, p, byk):
     rule = "R-C17-table"
@@ -281,3 +284,94 @@ def _tables(ck, p, byk):
                     bad.append((c0 + c1, got, want))
     ck.floor(rule, "letter-case variants interpreted through from_chars", n, 16)
     ck.decide(rule, "NumberSuffix::from_chars", not bad, fc.span, "all 16 case variants map to the variant whose to_chars is their lower-case form%s" % ("" if not bad else "; mismatches: %s" % bad))
+
+
+def _const_of(f, pv, local):
+    ds = [x for (bi, si, kind, x) in pv.defs.get(local, []) if kind == "assign"]
+    if len(ds) == 1 and ds[0]["rv"]["k"] == "use" and "k" in ds[0]["rv"]["op"] and "int" in ds[0]["rv"]["op"]["k"]:
+        return int(ds[0]["rv"]["op"]["k"]["int"])
+    return None
+
+
+def _boundary(ck, p, byk):
+    from .c01 import _fnitem_of
+    rule = "R-C17-boundary"
+    fs = byk.get("harper_core::lexing::lex_token")
+    if not ck.anchor(rule, "lexing::lex_token", fs):
+        return
+    f = fs[0]
+    table = None
+    for b in f.blocks:
+        for sx in b["s"]:
+            if sx["k"] == "assign" and sx["rv"]["k"] == "agg" and sx["rv"].get("agg") == "array":
+                names = [_fnitem_of(f, o) for o in sx["rv"]["ops"]]
+                if names and all(names) and len(names) >= 5:
+                    table = names
+    if table is None or not any(n.endswith("::lex_number") for n in table):
+        ck.refuted(rule, "anchor-missing:lexer-table", f.span, "the lexer table with lex_number in it was not found")
+        return
+    before = table[:[i for i, n in enumerate(table) if n.endswith("::lex_number")][0]]
+    ck.floor(rule, "table entries tried before lex_number", len(before), 5)
+    for nm in before:
+        g = p.fns.get(nm)
+        if g is None:
+            ck.undecided(rule, "entry:%s" % last(nm), f.span, "no MIR")
+            continue
+        ck.saw(g)
+        pv = Prov(g)
+        reads = {}          # constant index -> locals holding source[index]
+        var_reads = 0
+        for b in g.blocks:
+            if b["cleanup"]:
+                continue
+            for sx in b["s"]:
+                if sx["k"] != "assign":
+                    continue
+                pl = None
+                if sx["rv"]["k"] == "use" and place_of(sx["rv"]["op"]):
+                    pl = place_of(sx["rv"]["op"])
+                elif sx["rv"]["k"] == "ref":
+                    pl = sx["rv"]["place"]
+                if pl and pl[0] == 1 and any(isinstance(e, list) and e[0] == "i" for e in pl[1:]):
+                    il = [e[1] for e in pl[1:] if isinstance(e, list) and e[0] == "i"][0]
+                    c = _const_of(g, pv, il)
+                    if c is None:
+                        var_reads += 1
+                    else:
+                        reads.setdefault(c, set()).add(sx["lhs"][0] if len(sx["lhs"]) == 1 else None)
+        # returned constant token lengths
+        rets = set()
+        for b in g.blocks:
+            for sx in b["s"]:
+                if sx["k"] == "assign" and sx["rv"]["k"] == "agg" and sx["rv"].get("name", "").endswith("FoundToken") :
+                    fields = dict(zip(sx["rv"].get("fields", []), sx["rv"]["ops"]))
+                    ni = fields.get("next_index")
+                    if ni is not None and "k" in ni and "int" in ni["k"]:
+                        rets.add(int(ni["k"]["int"]))
+                    elif ni is not None:
+                        rets.add(None)
+        # letters the last matched character is compared with
+        letters = {}
+        for b in g.blocks:
+            for sx in b["s"]:
+                if sx["k"] == "assign" and sx["rv"]["k"] == "bin" and sx["rv"]["op"] in ("Eq", "Ne"):
+                    a, c = sx["rv"]["a"], sx["rv"]["b"]
+                    for x, y in ((a, c), (c, a)):
+                        if "k" in y and place_of(x):
+                            txt = y["k"].get("txt", "")
+                            m = re.match(r"^'([A-Za-z])'$", txt)
+                            if m:
+                                for idx, ls in reads.items():
+                                    if place_of(x)[0] in ls:
+                                        letters.setdefault(idx, set()).add(m.group(1))
+        key = "entry:%s" % last(nm)
+        fixed = [n for n in rets if n is not None]
+        if len(rets) == 1 and fixed and not var_reads:
+            n = fixed[0]
+            looks_after = any(i >= n for i in reads)
+            if (n - 1) in letters and not looks_after:
+                ck.refuted(rule, key, g.span, "matches a fixed %d-character shape whose last character is the letter %s and never looks at the character after it: digits + `%s` + more letters are split inside the word (`1000st` becomes the decade `1000s` followed by `t`), so the ordinal never reaches the number-suffix rule" % (n, sorted(letters[n - 1]), sorted(letters[n - 1])[0]))
+                continue
+            ck.proved(rule, key, g.span, "fixed %d-character shape; ends on a letter: %s; looks at the following character: %s" % (n, (n - 1) in letters, looks_after))
+        else:
+            ck.proved(rule, key, g.span, "not a fixed-length shape (token length is computed: %s)" % (sorted(map(str, rets)) or "none"))
